@@ -9,10 +9,10 @@ for d in seeded/*/; do
   [ "$e" = missed ] && { echo "SKIPPED $(basename $d): recorded as not detected by decision (see its meta.json)"; continue; }
   p=$(python3 -c "import json;print(json.load(open('$d/meta.json'))['property'])"); args="$args $d/patch.diff $p"; done
 ./selftest/sensitivity.sh -b $B $args
-na=""; for f in selftest/refactors/R1-*.patch selftest/refactors/R2-*.patch selftest/refactors/S1-*.patch selftest/refactors/S2-*.patch selftest/refactors/T1-*.patch selftest/refactors/U1-*.patch selftest/refactors/U2-*.patch selftest/refactors/V5-*.patch selftest/refactors/W1-*.patch selftest/refactors/X1-*.patch; do [ -f $f ] || continue; for p in C13 C14 C15 C16; do na="$na $f $p"; done; done
+na=""; for f in selftest/refactors/R1-*.patch selftest/refactors/R2-*.patch selftest/refactors/S1-*.patch selftest/refactors/S2-*.patch selftest/refactors/T1-*.patch selftest/refactors/U1-*.patch selftest/refactors/U2-*.patch selftest/refactors/V5-*.patch selftest/refactors/W1-*.patch selftest/refactors/X1-*.patch selftest/refactors/Y1-*.patch; do [ -f $f ] || continue; for p in C13 C14 C15 C16; do na="$na $f $p"; done; done
 ./selftest/noalarm.sh -b 8 $na
 n3=""; for f in selftest/refactors/R3-*.patch; do n3="$n3 $f C20"; done
 BASE_REV=3e9d072 ./selftest/noalarm.sh -b 8 $n3
-n4=""; for f in selftest/refactors/S3-*.patch selftest/refactors/T2-*.patch selftest/refactors/U3-*.patch selftest/refactors/V6-*.patch selftest/refactors/W2-*.patch selftest/refactors/X2-*.patch; do n4="$n4 $f C20"; done
+n4=""; for f in selftest/refactors/S3-*.patch selftest/refactors/T2-*.patch selftest/refactors/U3-*.patch selftest/refactors/V6-*.patch selftest/refactors/W2-*.patch selftest/refactors/X2-*.patch selftest/refactors/Y2-*.patch; do n4="$n4 $f C20"; done
 ./selftest/noalarm.sh -b 8 $n4
 ./selftest/reach.sh 10
